@@ -30,6 +30,7 @@ CONSTANTS
   SubTargets = {"A"}
   AutoVals = {}
   SubOneshot = {FALSE, TRUE}
+  UdVals = {0}
   Senders = {"A", "B"}
   QuitCodes = {1}
   ForeignOps = {}
